@@ -91,7 +91,9 @@ func init() {
 					res.PredRejects = c.PredMeshRejects
 				}
 				ok := withTimeout(20*time.Second, func() {
+					pipeSpelling = []string{" | ", "|", "  |  ", " |", "| "}[i%5] // the blanks around the bar of a type shortcut mean nothing
 					s, rr, err := buildSchema(c.Schema, c.Env, false, mesh)
+					pipeSpelling = " | "
 					res.Schema = rr.Text
 					for _, t := range c.Env.Types {
 						res.Types = append(res.Types, t.Name+" = "+strings.ReplaceAll(renderSchema(t.N).Text, "\n", " "))
